@@ -1442,13 +1442,17 @@ fn pretty_print_binop(op: &BinaryOperator, lhs: &Expression, rhs: &Expression) -
     match op {
         BinaryOperator::ConvertTo => {
             // has the lowest precedence of all operators, but a conditional on the left-hand
-            // side needs parens: its `else` branch would swallow the conversion otherwise
-            let lhs_markup = if matches!(lhs, Expression::Condition { .. }) {
-                with_parens(lhs)
-            } else {
-                lhs.pretty_print()
+            // side needs parens: its `else` branch would swallow the conversion otherwise.
+            // A conditional on the right-hand side needs them as well: the parser expects an
+            // operand of the next-higher precedence level there
+            let with_parens_if_conditional = |expr: &Expression| {
+                if matches!(expr, Expression::Condition { .. }) {
+                    with_parens(expr)
+                } else {
+                    expr.pretty_print()
+                }
             };
-            lhs_markup + op.pretty_print() + rhs.pretty_print()
+            with_parens_if_conditional(lhs) + op.pretty_print() + with_parens_if_conditional(rhs)
         }
         BinaryOperator::Mul => match (lhs, rhs) {
             (
@@ -1661,7 +1665,7 @@ impl PrettyPrint for Expression<'_> {
                     }
                 }
 
-                expr.pretty_print()
+                with_parens(expr)
                     + m::operator("(")
                     + itertools::Itertools::intersperse(
                         args.iter().map(|e: &Expression| e.pretty_print()),
@@ -1719,7 +1723,7 @@ impl PrettyPrint for Expression<'_> {
             AccessField {
                 expr, field_name, ..
             } => {
-                expr.pretty_print()
+                with_parens(expr)
                     + m::operator(".")
                     + m::identifier(field_name.to_compact_string())
             }
